@@ -33,6 +33,9 @@ func verifOnBlockRR() {
 		list := w.gb.scRefList
 		w.fill("@")
 		verifAssume(len(w.gb.scRefList) == len(list))
+		for j := 0; j < vR; j++ {
+			verifRRStreams[j] = w.refs[j].streamsCnt // what the other goroutines left behind
+		}
 		if verifBool("ctxEnds@") {
 			if !verifRRCtxClosed {
 				close(verifRRCtx.done)
@@ -46,6 +49,7 @@ func verifOnBlockRR() {
 }
 
 var verifRRCtxClosed bool
+var verifRRStreams [vR]int32 // stream counters after the last interference (before the call: at the call)
 
 // One round-robin BIND pick from an arbitrary Inv_gb state, possibly waiting for its channel.
 func VerifH_rr() {
@@ -66,6 +70,9 @@ func VerifH_rr() {
 	verifRRWorld, verifRRCtx, verifRRTarget = w, ctx, want
 	verifRRBudget = verifCase("interference")
 	verifRRBlocks = 0
+	for j := 0; j < vR; j++ {
+		verifRRStreams[j] = pre.streams[j]
+	}
 	verifRRArmed = true
 	verifReach("before")
 	res, err := w.pk.Pick(balancer.PickInfo{FullMethodName: "/bind", Ctx: ctx})
@@ -81,16 +88,19 @@ func VerifH_rr() {
 	if verifRRBlocks > 0 {
 		verifReach("waited")
 	}
-	// exact stream accounting also here (C02): one stream on the assigned channel
-	if verifRRBlocks == 0 {
-		for j := 0; j < vR; j++ {
-			d := w.refs[j].streamsCnt - pre.streams[j]
-			if w.refs[j] == want {
-				verifAssert(d == 1, "C02: round-robin BIND did not add one stream to its channel")
-			} else {
-				verifAssert(d == 0, "C02: round-robin BIND changed the stream count of another channel")
-			}
+	// exact stream accounting also here (C02): a placed call is charged once to its channel - whether
+	// or not it had to wait, and also when it stopped waiting because its context ended (its completion
+	// callback will un-charge it).  Counted against what the other goroutines left behind at the last
+	// interference.
+	for j := 0; j < vR; j++ {
+		d := w.refs[j].streamsCnt - verifRRStreams[j]
+		if w.refs[j] == want {
+			verifAssert(d == 1, "C02,C09: round-robin BIND did not add exactly one stream to its channel")
+		} else {
+			verifAssert(d == 0, "C02,C09: round-robin BIND changed the stream count of another channel")
 		}
+	}
+	if verifRRBlocks == 0 {
 		verifAssert(w.cc.created == pre.created && w.cc.removedCnt == pre.removed, "C03: round-robin pick changed the pool")
 	}
 	verifObserve("cursor", uint64(uint32(gb.rrRefId)))
